@@ -37,6 +37,7 @@ func checkC12(p *Prog, r *Report) {
 	c12ForwardArms(p, r, "C12.R6")
 	c12Extract(p, r)
 	c12Wiring(p, r)
+	c12CenturyRule(p, r)
 }
 
 func intArrayLit(info *types.Info, body ast.Node, name string) ([]int64, token.Pos) {
